@@ -118,9 +118,10 @@ def forms_items(rep):
     if not behs:
         raise core.MachineryError('TLC emitted no behaviours for ' + cfg)
     if rep.tier == 'quick':
-        # budget: without reduction nothing is substituted; every 4th of those shapes is replayed (all in thorough)
+        # budget: without reduction, or with an initial condition on the copy, nothing is substituted; every 4th of
+        # those shapes is replayed (all of them in the thorough tier)
         behs.sort(key=core.canonical)
-        behs = [b for i, b in enumerate(behs) if b['sys']['red'] or i % 4 == 0]
+        behs = [b for i, b in enumerate(behs) if (b['sys']['red'] and not b['sys']['ic']) or i % 4 == 0]
     rep.extra['form_shapes_replayed'] = len(behs)
     # (the SolveEquation() cross-run is left to the other case families)
     return [{'case': sk.form_case(b), 'behaviour': b, 'whole': False} for b in behs]
